@@ -197,6 +197,15 @@ def check_c01(ctx):
     # one attribute, two sources, values of different kinds
     for s in [x for x in table if x["kind"] == "attrmerge"]:
         add({"main.sysl": merge_program(s)}, what=s)
+    # collector entries and calls whose target applications share leading name parts
+    for s in [x for x in table if x["kind"] == "collectortarget"]:
+        apps = ["Bank", "Bank :: Accounts", "Bank :: Accounts :: Ledger", "Other"]
+        text = ""
+        for a in apps:
+            text += "%s:\n    Read:\n        ...\n" % a
+            if a == s["owner"]:
+                text += "    Caller:\n        %s <- Read\n        if x:\n            %s <- Read\n    .. * <- *:\n        %s <- Read [~audited]\n" % (s["call"], s["call"], s["entry"])
+        add({"main.sysl": text}, what=s)
     # near-misses of an import statement
     for s in [x for x in table if x["kind"] == "importline"]:
         body = "App:\n    Ep:\n        ...\n"
@@ -286,6 +295,7 @@ def check_c01(ctx):
         "compiles run in-process in a guarded goroutine (recover only classifies the panic) with a 10 s bound, re-run with 30 s before a hang is reported",
         "a fatal runtime error (stack exhaustion) kills the driver process: the orchestrator attributes it to the running scenario (event `fatal`, which the life cycle cannot explain) and restarts the driver",
         "one attribute given to one element by two sources (collector statement, re-declaration, annotation, nested REST block, event and subscriber, mixin) with every pair of value kinds (string, list, empty list, nested list, ~modifier, multi-line, absent)",
+        "a collector call entry and a call statement with one endpoint name whose target applications are equal, different, or one a leading part of the other's name",
         "near-misses of an import statement (the bare keyword, keyword and tab, two paths, a dangling `as`, ...) in the root or an imported file, as first line, after an import, or as the last bytes of the file",
         "rings of 1..4 declarations through every referring relation (mixin, alias, union, field, call, subscription, view call, foreign key), in one file and spread over imported files",
     ])
